@@ -49,7 +49,7 @@ func extScripted() [][]extOp {
 		{A: "Create", P: "d/a"}, {A: "Append", P: "d/a", Len: 5, Tag: 2}, {A: "Remove", P: "d"}, {A: "Remove", P: "d/l"}, {A: "Remove", P: "d/a"}, {A: "Remove", P: "d"}, {A: "Mkdir", P: "d"}, {A: "Symlink", P: "d/l", T: "abs"}, {A: "BigFile", K: 5}}
 	// a directory that grows across a block group boundary (twice: on the fresh volume and after some traffic)
 	cc := []extOp{{A: "Mkdir", P: "d"}, {A: "Straddle"}, {A: "Create", P: "a"}, {A: "Append", P: "a", Len: 5, Tag: 1}, {A: "Create", P: "d/a"}, {A: "Append", P: "d/a", Len: 9, Tag: 2},
-		{A: "Straddle"}, {A: "Remove", P: "a"}, {A: "Churn", P: "d", K: 30}, {A: "Straddle"}, {A: "Remove", P: "d/a"}, {A: "Remove", P: "d"}, {A: "BigFile", K: 20}}
+		{A: "Straddle"}, {A: "GroupEdge"}, {A: "Remove", P: "a"}, {A: "Churn", P: "d", K: 30}, {A: "Straddle"}, {A: "Remove", P: "d/a"}, {A: "Remove", P: "d"}, {A: "GroupEdge"}, {A: "BigFile", K: 20}}
 	return [][]extOp{a, b, cc}
 }
 
@@ -209,6 +209,10 @@ func extConfigs(tier string) []extCfg {
 		{Size: 20 * MiB, Start: 0, Journal: true},
 		{Size: 16 * MiB, Start: MiB, SPB: 8, Journal: false, Checksum: true, Extra: "noresize"},
 		{Size: 12 * MiB, Start: 4096, SPB: 2, Journal: false, Checksum: true},
+		// many block groups (256 blocks each) with 4 KiB and 1 KiB blocks: the scripted behaviours with the
+		// macros that work at group boundaries (Straddle, GroupEdge, BigFile across groups)
+		{Size: 16 * MiB, Start: 512, SPB: 8, Journal: false, Extra: "bpg256nr", Only: "scripted"},
+		{Size: 4 * MiB, Start: 0, SPB: 2, Journal: false, Extra: "bpg256nr", Only: "scripted"},
 	}
 	if tier == "thorough" {
 		cfgs = append(cfgs, extCfg{Size: 24 * MiB, Start: 512, SPB: 2, Journal: false}, extCfg{Size: 64 * MiB, Start: 5 << 30, SPB: 8, Journal: true, Checksum: true, Extra: "noresize"}, extCfg{Size: 40 * MiB, Start: 0, SPB: 4, Journal: true, Checksum: true, Extra: "noresize"})
@@ -231,6 +235,9 @@ func C04(c *core.Ctx) {
 	for ci, cfg := range extConfigs(c.Tier) {
 		for bi, ops := range behs {
 			if c.Tier == "thorough" && labels[bi] != "scripted" && (bi+ci)%3 != 0 && ci > 0 {
+				continue
+			}
+			if cfg.Only != "" && labels[bi] != cfg.Only {
 				continue
 			}
 			jobs = append(jobs, extJob{cfg, ops, labels[bi]})
